@@ -77,6 +77,11 @@ pub struct Case {
     pub participants: u8,
     /// re-use the names of deleted topics for new topics
     pub reuse_topic_names: bool,
+    /// publishers and subscribers are created with autoenable_created_entities = false: their writers and
+    /// readers exist without being enabled. The deletion preconditions do not depend on that (a topic used by
+    /// a not-yet-enabled endpoint is in use); write/take on such endpoints are not probed.
+    #[serde(default)]
+    pub autoenable_off: bool,
     pub ops: Vec<Op>,
 }
 
@@ -93,8 +98,8 @@ fn kind_strategy() -> impl Strategy<Value = K> {
 
 pub fn strategy(thorough: bool) -> BoxedStrategy<Case> {
     let max_ops = if thorough { 80 } else { 40 };
-    (prop_oneof![4 => Just(1u8), 1 => Just(2u8)], prop_oneof![5 => Just(false), 1 => Just(true)])
-        .prop_flat_map(move |(participants, reuse_topic_names)| {
+    (prop_oneof![4 => Just(1u8), 1 => Just(2u8)], prop_oneof![5 => Just(false), 1 => Just(true)], prop_oneof![3 => Just(false), 1 => Just(true)])
+        .prop_flat_map(move |(participants, reuse_topic_names, autoenable_off)| {
             let p = 0..participants;
             let op = prop_oneof![
                 20 => (p.clone(), kind_strategy(), any::<u16>(), any::<u16>()).prop_map(|(p, kind, a, b)| Op::Create { p, kind, a, b }),
@@ -105,7 +110,7 @@ pub fn strategy(thorough: bool) -> BoxedStrategy<Case> {
                 1 => p.clone().prop_map(|p| Op::DeleteParticipant { p }),
                 1 => p.clone().prop_map(|p| Op::ParticipantGetQos { p }),
             ];
-            prop::collection::vec(op, 3..=max_ops).prop_map(move |ops| Case { participants, reuse_topic_names, ops })
+            prop::collection::vec(op, 3..=max_ops).prop_map(move |ops| Case { participants, reuse_topic_names, autoenable_off, ops })
         })
         .boxed()
 }
@@ -200,6 +205,7 @@ struct Env {
     seq: u32,
     stop: bool,
     reuse: bool,
+    autoenable_off: bool,
 }
 
 const AD: &[&str] = &["AlreadyDeleted"];
@@ -316,16 +322,20 @@ impl Env {
             Obj::Writer(x) => {
                 let r = r_of(&call(x.get_qos()).await);
                 self.check(sub, &format!("{shape}:get_qos"), &format!("get_qos on {label}"), want, &r);
-                self.seq += 1;
-                let s = KeyedData { id: (self.seq % 251) as u8, seq: self.seq, blob: vec![1, 2, 3] };
-                let r = r_of(&call(x.write(s, None)).await);
-                self.check(sub, &format!("{shape}:write"), &format!("write on {label}"), want, &r);
+                if !self.autoenable_off {
+                    self.seq += 1;
+                    let s = KeyedData { id: (self.seq % 251) as u8, seq: self.seq, blob: vec![1, 2, 3] };
+                    let r = r_of(&call(x.write(s, None)).await);
+                    self.check(sub, &format!("{shape}:write"), &format!("write on {label}"), want, &r);
+                }
             }
             Obj::Reader(x) => {
                 let r = r_of(&call(x.get_qos()).await);
                 self.check(sub, &format!("{shape}:get_qos"), &format!("get_qos on {label}"), want, &r);
-                let r = r_of(&call(x.take(8, ANY_SAMPLE_STATE, ANY_VIEW_STATE, ANY_INSTANCE_STATE)).await);
-                self.check(sub, &format!("{shape}:take"), &format!("take on {label}"), want, &r);
+                if !self.autoenable_off {
+                    let r = r_of(&call(x.take(8, ANY_SAMPLE_STATE, ANY_VIEW_STATE, ANY_INSTANCE_STATE)).await);
+                    self.check(sub, &format!("{shape}:take"), &format!("take on {label}"), want, &r);
+                }
             }
         }
     }
@@ -350,7 +360,15 @@ impl Env {
         let part = self.ps[p].obj.clone();
         match kind {
             K::Pub => {
-                let r = call(part.create_publisher(QosKind::Default, NO_LISTENER, NO_STATUS)).await;
+                let qos = if self.autoenable_off {
+                    QosKind::Specific(dust_dds::infrastructure::qos::PublisherQos {
+                        entity_factory: dust_dds::infrastructure::qos_policy::EntityFactoryQosPolicy { autoenable_created_entities: false },
+                        ..Default::default()
+                    })
+                } else {
+                    QosKind::Default
+                };
+                let r = call(part.create_publisher(qos, NO_LISTENER, NO_STATUS)).await;
                 let got = r_of(&r);
                 let want = if pm_alive { OK } else { err(AD) };
                 let state = if pm_alive { "live-participant" } else { "deleted-participant" };
@@ -360,7 +378,15 @@ impl Env {
                 }
             }
             K::Sub => {
-                let r = call(part.create_subscriber(QosKind::Default, NO_LISTENER, NO_STATUS)).await;
+                let qos = if self.autoenable_off {
+                    QosKind::Specific(dust_dds::infrastructure::qos::SubscriberQos {
+                        entity_factory: dust_dds::infrastructure::qos_policy::EntityFactoryQosPolicy { autoenable_created_entities: false },
+                        ..Default::default()
+                    })
+                } else {
+                    QosKind::Default
+                };
+                let r = call(part.create_subscriber(qos, NO_LISTENER, NO_STATUS)).await;
                 let got = r_of(&r);
                 let want = if pm_alive { OK } else { err(AD) };
                 let state = if pm_alive { "live-participant" } else { "deleted-participant" };
@@ -583,8 +609,8 @@ impl Env {
 }
 
 impl Env {
-    fn new(ps: Vec<PM>, reuse: bool) -> Self {
-        Env { ps, out: Out::default(), seq: 0, stop: false, reuse }
+    fn new(ps: Vec<PM>, reuse: bool, autoenable_off: bool) -> Self {
+        Env { ps, out: Out::default(), seq: 0, stop: false, reuse, autoenable_off }
     }
 }
 
@@ -598,7 +624,10 @@ async fn scenario(c: Case) -> Out {
         ps.push(PM { alive: true, obj: p, ents: vec![], topic_names_used: 0, cft_deleted_explicitly: false, cft_deleted_by_contained: false });
     }
     exec::with_world(|w| w.net.log_enabled = false);
-    let mut env = Env::new(ps, c.reuse_topic_names);
+    let mut env = Env::new(ps, c.reuse_topic_names, c.autoenable_off);
+    if c.autoenable_off {
+        env.out.class("endpoints_created_not_enabled");
+    }
     env.out.class(if c.participants > 1 { "two-participants" } else { "one-participant" });
     for op in &c.ops {
         if env.stop {
